@@ -54,6 +54,68 @@ CLAIMED = {
          "bounds: 2 players x <=2 chunks x 3 control calls exhaustively, 1-3 players x <=3 chunks x 5 calls randomly. "
          "Trusted: TLC, pcal, harness/sched.py.",
          "DESIGN.md section 4 C17 and appendix A"),
+ "C08": ("spec/dsp/Blocks.tla + BlocksDef.tla + BlocksC08.tla + trace/BlocksTrace.tla (+ BlocksIdx.tla for Apalache)",
+         "TLC model checking of the deque/idx machine of blocks/zero_pad against the hop-spaced-window definition + "
+         "replay of every enumerated state on the real blocks / Stream.blocks / zero_pad + TLC judgement of recorded runs",
+         "The operational model of blocks/zero_pad (bounded deque, idx bookkeeping, both loops, tail test) refines the "
+         "property's definition for every length x size x hop of the grid (TLC); the real code agrees with every "
+         "enumerated state on every pad kind and call route, including through Stream.blocks, with snapshots taken at "
+         "the yield; larger random runs are judged by TLC on the same operators. A division-free inductive invariant of "
+         "the index machine is additionally discharged by Apalache for arbitrary input length at sampled (size, hop) "
+         "(auxiliary, never decides the verdict).",
+         "n <= 20, size <= 6, hop <= 9 quick; n <= 40, size <= 10, hop <= 14 thorough; M3 n <= 300, size <= 40, hop <= 60. "
+         "Blocks are copied at the yield (the deque is reused by design); items identified by object identity; "
+         "hop-not-given and read timing are diagnostics only. Trusted: TLC, dump parser, item coding.",
+         "DESIGN.md section 4 C08"),
+ "C09": ("spec/dsp/Ola.tla + OlaDef.tla + Stft.tla (+ grids) + trace/OlaTrace.tla + StftTrace.tla",
+         "TLC model checking of the shift-add machine against the windowed hop-shifted sum (with COLA inversion of "
+         "blocking) and of the stft wrapper as a configuration machine + exact linear-form replay on the real "
+         "overlap_add.list / stft + TLC-judged records",
+         "On linear-form samples (deciding the identity for every sample value) and rational windows TLC proves within "
+         "the grid that the machine equals the sum formula with length m*h+size-h, that both gain computations agree, "
+         "the inversion theorem, and for the wrapper: later-layer-wins merge, stage order with None skipped, "
+         "window-before-func, only ola_-prefixed options passed on, identity reconstruction. The real overlap_add.list "
+         "and stft agree with every enumerated case through all window, container and calling routes; random larger "
+         "cases are judged by TLC.",
+         "m <= 3, size <= 3 quick; m <= 4, size <= 4 thorough; wrapper sizes 2-4; M3 m <= 30, size <= 16; hop <= size; "
+         "windows are Fraction lists; numpy absent (overlap_add.numpy and default transforms not covered); two float "
+         "paths of the code (1/ceil without window, 0.0-padded gain sum) compared with 1e-9(1+|exact|). Trusted: TLC, "
+         "LinForm, dump parser.",
+         "DESIGN.md section 4 C09"),
+ "C14": ("spec/dsp/Windows.tla + WindowTable.tla + WindowsReg.tla + lib/TrigForm.tla + trace/WindowsTrace.tla",
+         "TLC model checking of the two exec'd window templates and of the strategy-registration loop against the "
+         "documented closed forms and contracts in exact canonical trigonometric forms + replay of every enumerated "
+         "state on the real window/wsymm objects + TLC judgement of recorded sample lists and registry projections",
+         "Prefix (exact), symmetry, length, wsymm.X(1), COLA and the cross-references are decided exactly at every size "
+         "of the grid on the model (samples are canonical cosine combinations, rational where the closed form is) and on "
+         "the code through every alias and attribute path; recorded lists up to size 400 are judged relationally by TLC.",
+         "sizes <= 20 quick / <= 64 thorough (M3 <= 400); irrational samples compared via libm cosine to 1e-9; relational "
+         "float contracts in 2^-20 fixed point; blackman alpha in [0, 1/4]; cos alpha = 0 or >= 1/2. Trusted: TLC, libm cos.",
+         "DESIGN.md section 4 C14"),
+ "C18": ("spec/io/Codec.tla + CodecC18.tla + CodecC18T.tla + trace/CodecTrace.tla",
+         "TLC model checking of the chunk packers (array fill loop, blocks+pack, floor-division two's complement) and of "
+         "the WavStream unpackers and close protocol against positional byte definitions (incl. liveness of closing) + "
+         "replay of every state on chunks.struct/chunks.array and WAV files written with stdlib wave + TLC-judged records",
+         "Byte-exact for b/h/i over all byte orders with array == struct, exact integers / exact dyadic floats for "
+         "8/16/24/32-bit mono and stereo including every sign-extension pattern, header mirrored, file open until "
+         "exhaustion and closed after, for all enumerated cases; thousands of random larger inputs judged by TLC.",
+         "f/d only by round trip through stdlib struct (no IEEE encoder in TLA+); pad/values of the format's type; "
+         "byte_order in {None, '<', '>'}; closed = no descriptor in /proc/self/fd; grid lengths <= 5, sizes <= 4, M3 "
+         "len <= 200. Trusted: TLC, stdlib wave/struct.",
+         "DESIGN.md section 4 C18"),
+ "C19": ("spec/dsp/Synth.tla + SynthC19.tla + trace/SynthTrace.tla",
+         "TLC model checking of operational machines shaped like each generator (8-branch modulo_counter with batched fast "
+         "path, envelope phase machines, table lookup, Lagrange resampler, linearised comb) against closed-form "
+         "definitions in exact rational / linear-form arithmetic + replay of all enumerated states + TLC-judged random runs",
+         "Within the grids TLC proves the operational machines equal the statement's closed forms for every sample value "
+         "(all 8 argument-kind branches, fast path on/off, zero/negative/modulo-multiple steps, durations 0/fractional/"
+         "inf, orders 1-4, ratios below/at/above 1); every enumerated state is executed on the real code through several "
+         "argument routes and larger random runs are judged by TLC with the same operators.",
+         "lengths <= 6 exhaustive / <= 320 random; exact comparison where the code is exact, 1e-9(1+|exact|) only where "
+         "the code itself uses floats; sin trusted to libm (sinusoid compared in the harness); noise only length/range; "
+         "time-varying modulo accepts either reading plus range; any enclosing resampling window accepted. Trusted: TLC, "
+         "Rat/Lin modules, LinForm.",
+         "DESIGN.md section 4 C19"),
  "C15": ("spec/core/MultiKeyDict.tla + StrategyDict.tla + trace/MultiKeyDictTrace.tla",
          "TLC full reachable state graph (refinement of the three-map machine to the key->value-with-recency "
          "definition) + transition-cover replay into the real objects + TLC trace validation of recorded histories",
